@@ -135,6 +135,44 @@ Example C12_history_example :
   end.
 Proof. vm_compute. split; reflexivity. Qed.
 
+(** The same at the level of stacks and records: for every history of requests (default size,
+    or any custom size [n >= 1] whose page-rounded size is at most 2^30) and well-formed
+    releases, by any workers: all blocks behind live stacks, live records and entries of any
+    free list are pairwise disjoint; the memory a thread uses as its stack lies inside its
+    block; and the size word of every live stack is intact, so that a release recomputes
+    exactly the block and class the allocation used - whatever was handed out and written in
+    between. *)
+Theorem C12_stack_histories : forall mmap gsz dsz,
+  (forall regs len r, (0 < len)%Z -> In r regs -> disj (mmap regs len, len) r) ->
+  (16 <= gsz /\ gsz + 4095 < 2 ^ 64)%Z -> (1 <= dsz /\ dsz + 4095 < 2 ^ 64)%Z ->
+  forall ops h, srun mmap gsz dsz ops hs_init = Some h ->
+    pairwise (all_blocks gsz dsz h) /\
+    (forall b, In b (all_blocks gsz dsz h) ->
+       (0 < snd b)%Z /\ exists r, In r (fl_regs (s_fl (hs_st h))) /\ inside b r) /\
+    (forall it, In it (hs_live h) -> i_kind it = true ->
+       (fst (i_blk it) <= i_ptr it + 16 - (if i_word it =? 0 then gsz else i_word it))%Z /\
+       (i_ptr it + 16 <= fst (i_blk it) + snd (i_blk it))%Z /\
+       match release_target (s_mem (hs_st h)) (i_ptr it) with
+       | RDefault t => i_word it = 0%Z /\ t = i_ptr it /\ i_blk it = def_blk gsz t
+       | RClass i s => i_word it <> 0%Z /\ i_blk it = (s, 2 ^ i)%Z
+       | RBad => False
+       end).
+Proof. exact stack_histories. Qed.
+Print Assumptions C12_stack_histories.
+
+(** a history on two workers: default and custom stacks and a record, released by the other
+    worker and handed out again by that worker's lists *)
+Example C12_stack_history_example :
+  match srun bump_mmap 131072 416
+          [SGet 0 0; SGet 0 5000; DGet 1; SRel 1 139248; SRel 1 131056; SGet 1 8192; SGet 1 0;
+           DRel 0 139264; DGet 0]%Z hs_init with
+  | Some h => map i_ptr (hs_live h) = [139264; 131056; 139248]%Z /\
+              map i_blk (hs_live h) = [(139264, 4096); (0, 131072); (131072, 8192)]%Z /\
+              length (fl_regs (s_fl (hs_st h))) = 3
+  | None => False
+  end.
+Proof. vm_compute. repeat split; reflexivity. Qed.
+
 (** * (3) the ledger, for every number of workers and every schedule *)
 
 (** every stack and every record that exists is owned by exactly one thread or sits exactly
